@@ -50,7 +50,8 @@ def tfy(children, repr_ok=False):
         st.builds(lambda s: {"k": "text", "s": s}, gen.hot_text(3)),
         st.sampled_from([{"k": "html", "s": "<i>h</i>"}, DEPS[0], DEPS[3], DEPS[4]]),
     )
-    return st.builds(lambda r, rp: {"k": "tfy", "res": r, "repr": rp}, res, st.booleans() if repr_ok else st.just(False))
+    variant = st.just(None) if repr_ok else st.sampled_from([None, None, None, "stored", "strsub", "iter"])
+    return st.builds(lambda r, rp, v: {"k": "tfy", "res": r, "repr": rp, "variant": v}, res, st.booleans() if repr_ok else st.just(False), variant)
 
 
 def forest(repr_ok=False):
@@ -149,7 +150,10 @@ def body_expand(case, note):
                 return h.HTMLDocument(h.Tag("html", h.Tag("body", *objs)))
             return h.HTMLDocument(h.Tag("html", h.Tag("head", *objs[:1]), h.Tag("body", *objs[1:])))
 
-        w1 = doc_of(roots).render(lib_prefix=case["lib"])
+        dobj = doc_of(roots)
+        w1 = dobj.render(lib_prefix=case["lib"])
+        again = dobj.render(lib_prefix=case["lib"])
+        check(again["html"] == w1["html"], f"rendering the same document (lone <{wrap}>) a second time gives different markup", w1["html"], again["html"])
         w2 = doc_of(exp).render(lib_prefix=case["lib"]) if wrap != "html-head" else None
         if wrap == "html-head":
             # expansion lengths differ, so build the expanded document from the expanded parts
@@ -161,8 +165,19 @@ def body_expand(case, note):
     for x in roots:
         late.append(build(x))
     check(late.render(lib_prefix=case["lib"])["html"] == d2["html"], "HTMLDocument with content appended later differs")
+    # a <head> supplied by a tagifiable object below a lone <html>
+    if roots[0]["k"] == "tfy" and roots[0]["res"]["k"] == "tag" and not roots[0].get("repr"):
+        head_tfy = dict(roots[0], res=dict(roots[0]["res"], name="head", ws=True))
+        mk = lambda hd, rest: h.HTMLDocument(h.Tag("html", build(hd), h.Tag("body", *[build(x) for x in rest])))
+        dd = mk(head_tfy, roots[1:])
+        p1 = dd.render(lib_prefix=case["lib"])
+        p2 = dd.render(lib_prefix=case["lib"])
+        ref = mk(expand([head_tfy])[0], expand(roots[1:])).render(lib_prefix=case["lib"])
+        check(p1["html"] == ref["html"], "document whose <head> comes from a tagifiable object differs from the expanded document", ref["html"], p1["html"])
+        check(p2["html"] == p1["html"], "second rendering of a document whose <head> comes from a tagifiable object differs", p1["html"], p2["html"])
     s = stats(roots)
-    note(s["tfy"] >= 2 and (s["multi"] or s["nested"]), "empty-expansion-adjacent" if s["empty-adjacent"] else "", "nested-expansion" if s["nested"] else "", "no-tfy" if s["tfy"] == 0 else "")
+    variants = {n.get("variant") for n in _all(roots) if n["k"] == "tfy"}
+    note(s["tfy"] >= 2 and (s["multi"] or s["nested"]), *["variant:" + v for v in sorted(x for x in variants if x)], "empty-expansion-adjacent" if s["empty-adjacent"] else "", "nested-expansion" if s["nested"] else "", "no-tfy" if s["tfy"] == 0 else "")
 
 
 def has_plain_tfy(nodes):
@@ -231,7 +246,7 @@ CLAUSES = [
         quick=700,
         thorough=10000,
         shards_quick=4,
-        required=("empty-expansion-adjacent", "nested-expansion"),
+        required=("empty-expansion-adjacent", "nested-expansion", "variant:stored", "variant:strsub", "variant:iter"),
         rule="see RULE",
     ),
     Clause(
